@@ -117,7 +117,13 @@ def run_case(ctx, rng, ci):
                             break
     ctx.case("%d|%s|cells|%s" % (F, fmts, kind), nonid, {"inputs": gen.ds_summary(ds)})
     # (b) permuted rewrite -> byte-identical csv
-    for cmd in COMMANDS:
+    commands = list(COMMANDS)
+    if all(i["fmt"] == "text" for i in ds["inputs"]):
+        # pre-aggregation windows are found by coordinate too (NetCDF files with permuted dimensions: see C15's known finding)
+        commands += [["-m", "mae", "-x", "leadtime", "-T", rng.choice(["6", "12", "24"])],
+                     ["-m", "fcst", "-x", "leadtime", "-T", "12", "-Tagg", rng.choice(["max", "sum", "median"])]]
+        ctx.count("families_with_T_commands")
+    for cmd in commands:
         oa = runner.run_cli(pa + cmd + ["-type", "csv"])
         ob = runner.run_cli(pb + cmd + ["-type", "csv"])
         ctx.count("permutation_pairs")
@@ -135,7 +141,7 @@ def run_case(ctx, rng, ci):
                           "dimension entries inside the files:\n%s\nvs\n%s" % (" ".join(cmd), "\n".join(la)[-500:], "\n".join(lb)[-500:]), case)
     ctx.case("%d|%s|perm-inside|%s" % (F, fmts, kind), nonid)
     # (c) file order
-    cmd = rng.choice(COMMANDS[:4] + COMMANDS[7:])
+    cmd = rng.choice(COMMANDS[:4] + commands[7:])
     ref_cols = None
     orders = list(itertools.permutations(range(F)))
     if len(orders) > 24:
@@ -163,7 +169,13 @@ def run_case(ctx, rng, ci):
             ctx.count("columns_compared", F)
             if cols != ref_cols[0] or descs != ref_cols[1]:
                 bad = [n for n in cols if cols[n] != ref_cols[0].get(n)]
-                ctx.violation("file-order-changes-scores", "verif %s: with file order %s the columns of %s differ from the first order"
+                noobs = [i["name"] for i in ds["inputs"] if "obs" not in i["has"]]
+                key = "file-order-changes-scores"
+                if "-T" in cmd and bad and all(n in noobs for n in bad) and descs == ref_cols[1]:
+                    # only inputs WITHOUT observations differ, under -T: they borrow the first obs-bearing file's observations,
+                    # which were pre-aggregated over that file's own lead-time grid
+                    key = "file-order-changes-scores|T-window-of-borrowed-observations"
+                ctx.violation(key, "verif %s: with file order %s the columns of %s differ from the first order"
                               % (" ".join(cmd), want_names, bad), case)
                 break
     ctx.case("%d|%s|file-order|%s" % (F, fmts, cmd[1]), F >= 2)
